@@ -32,6 +32,9 @@ double usertimer_(void) { return 0.0; }
 void superlu_abort_and_exit(char *msg)
 {
     vh_aborted = 1;
+#ifdef VH_ABORT_IS_FAILURE
+    vh_assert(0, "the library aborted (SUPERLU_ABORT) on a valid call with sufficient size estimates");
+#endif
 #ifdef VH_CBMC
     __CPROVER_assume(0);
 #else
